@@ -30,7 +30,7 @@ INT_TYPE_NAMES = list(INT_TYPES)
 
 def catalogue():
     out = []
-    for line in open(os.path.join(ROOT, "harness", "formats.txt")):
+    for line in open(os.path.join(ROOT, "harness", "formats-total.txt")):
         t = line.split()
         if len(t) >= 3 and not t[0].startswith("#"):
             out.append((t[0], int(t[1], 16), t[2]))
